@@ -346,8 +346,10 @@ def run(pid, tier, seed, workers):
               pid, tier, seed, len(shards), cov['states'], cov['transitions'],
               cov['traces_validated_against_impl'], cov['evaluations'], cov['distinct_nontrivial'],
               cov['distinct_outcomes'], len(unknown), len(known_hit), wall))
+    if lines:
+        return 1            # at least one violation reproduced identically twice: that is the verdict
     if rc:
-        return rc
+        return rc           # only unreproducible / nondeterministic observations: harness problem
     return 1 if unknown else 0
 
 
